@@ -19,8 +19,11 @@ def main():
     shutil.rmtree(dst, ignore_errors=True)
     files = ["Cargo.toml", "src/lib.rs", "src/si_prefixes.rs", "src/amnt_dec.rs", "src/amnt_f64.rs", "src/amnt_f32.rs",
              "src/prelude.rs", "src/rate.rs", "src/converter.rs", "astronimical_quantities/src/lib.rs",
-             "astronimical_quantities/Cargo.toml"]
-    files += [f"src/{m['module']}.rs" for m in catalogue_modules(repo) if not m["module"].startswith("amnt_")]
+             "astronimical_quantities/Cargo.toml", "qty-macros/src/lib.rs", "qty-macros/src/quantity_attr_helper.rs"]
+    # every file of src/ (the inventory of conditional compilation reads them all)
+    files += sorted("src/" + n for n in os.listdir(os.path.join(repo, "src")) if n.endswith(".rs") and "src/" + n not in files)
+    files += [f"src/{m['module']}.rs" for m in catalogue_modules(repo)
+              if not m["module"].startswith("amnt_") and f"src/{m['module']}.rs" not in files]
     for f in files:
         s = os.path.join(repo, f)
         if not os.path.exists(s):
